@@ -306,7 +306,11 @@ func GenOp(t *rapid.T, w *World, p *Profile) Op {
 		return o
 	case "hop":
 		c := genCfg(t, false)
-		return Op{Kind: "hop", N: rapid.SampledFrom(w.Retained()).Draw(t, "ver"), Flag: rapid.Bool().Draw(t, "compress"), Cfg: &c}
+		hop := Op{Kind: "hop", N: rapid.SampledFrom(w.Retained()).Draw(t, "ver"), Flag: rapid.Bool().Draw(t, "compress"), Cfg: &c}
+		if rapid.IntRange(0, 2).Draw(t, "hopPreused") == 0 {
+			hop.Read = "preused"
+		}
+		return hop
 	case "pin":
 		if len(w.Pins) > 0 && rapid.Bool().Draw(t, "pinSame") {
 			// a second export of a version that is already being exported
